@@ -199,6 +199,8 @@ def run(ctx):
     _timefam.run(ctx, 'C01', ctx.rng, ctx.n(25, 300), _timefam.BIN)
     from .. import ctxfam as _ctxfam
     _ctxfam.run(ctx, 'C01', ctx.rng, ctx.n(60, 800), impl, ['ber', 'der', 'per', 'uper', 'oer'])
+    from .. import twomark as _twomark
+    _twomark.run(ctx, 'C01', ctx.rng, ctx.n(40, 500), ['ber', 'der', 'per', 'uper', 'oer'])
 
 
 WITNESSES = [
